@@ -9,7 +9,7 @@ EXTENDS Integers, Sequences, FiniteSets, TLC
 
 CONSTANTS MaxOff,     \* dst, src, len range over 0..MaxOff
           MemSizes,   \* initial memory sizes in bytes (multiples of 32)
-          Kinds,      \* subset of {"copy", "big", "fork", "tfee"}
+          Kinds,      \* subset of {"copy", "big", "fork", "tfee", "tgas"}
           Forks
 
 VARIABLE vec
@@ -35,7 +35,12 @@ COPY == {[k |-> "copy", m |-> m, dst |-> d, src |-> s, len |-> n] : m \in MemSiz
 BIG == {[k |-> "big", m |-> 64, dst |-> d, src |-> s, len |-> n] : d \in {0, 5} \cup Bigs, s \in {0, 5} \cup Bigs, n \in {0, 1} \cup Bigs}
 FORK == {[k |-> "fork", fork |-> f, op |-> o] : f \in Forks, o \in {"TLOAD", "TSTORE", "MCOPY"}}
 TFEE == {[k |-> "tfee", slotc |-> s, valc |-> v, warm |-> w] : s \in {0, 1, 1007}, v \in {0, 1, 1007}, w \in BOOLEAN}
-Vectors == (IF "copy" \in Kinds THEN COPY ELSE {}) \cup (IF "big" \in Kinds THEN BIG ELSE {})
+\* the fee is all an instruction needs: a frame given exactly the price of its program (plus 0 .. 3000 gas) completes and uses exactly that price
+\* (no minimum amount of gas has to be left over, unlike SSTORE's 2300-gas sentry)
+TGAS == {[k |-> "tgas", op |-> o, slack |-> x] : o \in {"TLOAD", "TSTORE", "MCOPY"}, x \in {0, 1, 99, 100, 2199, 2200, 2299, 2300, 2301, 3000}}
+\* PUSH1 v PUSH1 k TSTORE STOP / PUSH1 k TLOAD POP STOP / PUSH1 32 PUSH1 0 PUSH1 0 MCOPY STOP (empty memory: one word of expansion)
+ProgGas(o) == CASE o = "TSTORE" -> 3 + 3 + 100 [] o = "TLOAD" -> 3 + 100 + 2 [] o = "MCOPY" -> 3 + 3 + 3 + CopyGas(0, 0, 0, 32)
+Vectors == (IF "tgas" \in Kinds THEN TGAS ELSE {}) \cup (IF "copy" \in Kinds THEN COPY ELSE {}) \cup (IF "big" \in Kinds THEN BIG ELSE {})
            \cup (IF "fork" \in Kinds THEN FORK ELSE {}) \cup (IF "tfee" \in Kinds THEN TFEE ELSE {})
 
 Init == vec \in Vectors
@@ -50,6 +55,7 @@ Expect(v) ==
                       ELSE [err |-> FALSE, mem |-> CopyResult(Mem0(v.m), v.dst, v.src, v.len), gas |-> CopyGas(v.m, v.dst, v.src, v.len)]
     [] v.k = "fork" -> [valid |-> (v.fork = "Cancun")]
     [] v.k = "tfee" -> [fee |-> 100]
+    [] v.k = "tgas" -> [gas |-> ProgGas(v.op)]
 
 \* design sanity: memmove semantics, byte by byte, including overlapping ranges; nothing else changes; size covers both ranges
 MemMove ==
